@@ -51,6 +51,8 @@ class Derive(Stream):
         # (the harness keeps the previous UE context): same inputs, same results
         again, was = o.get("prev_again"), getattr(self, "_prev", None)
         self._prev = {k: o.get(k) for k in ("res_star", "kamf", "knasint", "knasenc")} if "panic" not in o and "res_star" in o else None
+        if o.get("same_context_mismatch"):
+            return "a further challenge on the same UE context is not answered as a fresh context answers it: " + "; ".join(o["same_context_mismatch"])[:1500]
         if again is not None and was is not None and again != was:
             return "re-authenticating the previous subscriber after another UE context was created gives different results: was %r, now %r" % (was, again)
         return None
